@@ -90,3 +90,18 @@ package filesystem
 //gvc:  sink Set requires private: arg0 != idx && forall(a, 0, len(idx.Entries), forall(b, 0, len(arg0.Entries), arg0.Entries[b] == nil || arg0.Entries[b] != idx.Entries[a]))
 //gvc:  sink Set requires aswritten: arg0.Cache == nil && arg0.ResolveUndo == nil && arg0.EndOfIndexEntry == nil
 //gvc:end
+
+// writeIndex: success means the index reached the file: a nil result implies
+// that the encoder, the buffered writer's Flush and the file's Close all
+// succeeded (the deferred Flush and Close report through the named result).
+// SetIndex fills the cache only after writeIndex returned nil, so the cache
+// never describes an index whose write failed at Flush or Close.
+//gvc:func (*IndexStorage).writeIndex
+//gvc:  props C20
+//gvc:  theory int
+//gvc:  opt coarse
+//gvc:  opt frame args
+//gvc:  results werr
+//gvc:  requires nn: s != nil && s.dir != nil
+//gvc:  ensures durable: werr == nil && calls("IndexWriter") == 1 && lastres("IndexWriter") == nil ==> calls("Flush") == 1 && lastres("Flush") == nil && calls("Encode") == 1 && lastres("Encode") == nil && f.#closeerr == nil && !f.#open
+//gvc:end
